@@ -102,12 +102,13 @@ func vfRunCase(t *testing.T, c *vfc20.Case) *vfc20.Run {
 			if e == nil {
 				break
 			}
+			srcKey := append([]byte(nil), e.Key...) // read BEFORE the call: the monitor never depends on what Replay does to its argument
 			err := rr.Replay(e)
 			res.EntEnd = append(res.EntEnd, tg.LogLen()-nSeed)
 			en, key := vfc20.ErrEnum(err)
 			res.Errs = append(res.Errs, en)
 			if err != nil {
-				res.Final, res.FailKey, res.ErrText = en, string(c.TKey(e.Key)), err.Error()
+				res.Final, res.FailKey, res.ErrText = en, string(c.TKey(srcKey)), err.Error()
 				if key != "" {
 					res.FailKey = key // the key the error message names
 				}
@@ -195,6 +196,12 @@ func TestVerifC20(t *testing.T) {
 	}
 	for _, c := range vfc20.ExhaustiveBad("plain") {
 		run(c, "exhaustive-bad-data")
+	}
+	for _, c := range vfc20.ExhaustiveModule("plain") {
+		run(c, "exhaustive-module")
+	}
+	for _, c := range vfc20.ExhaustiveBig("plain") {
+		run(c, "exhaustive-big")
 	}
 	for _, c := range vfc20.ExhaustivePolicyStrings("plain") {
 		run(c, "exhaustive-policy-strings")
